@@ -19,21 +19,23 @@ EXTENDS TraceEvents
 
 Traces == T.traces
 
-VARIABLES tid, l, st, errs
-tvars == <<tid, l, st, errs>>
+VARIABLES tid, l, st, tx, errs
+tvars == <<tid, l, st, tx, errs>>
 
 Events == Traces[tid].events
 
 TraceInit == /\ tid \in 1..Len(Traces)
              /\ l = 1
              /\ st = << >>
+             /\ tx = << >>
              /\ errs = <<>>
 
 Consume ==
   /\ l <= Len(Events)
   /\ LET ev == Events[l]
-         r  == EventVerdict(st, ev)         \* [ok, why, exp, st]
+         r  == EventVerdict2(st, tx, ev)    \* [ok, why, exp, st, tx]
      IN /\ st' = r.st
+        /\ tx' = r.tx
         /\ errs' = IF r.ok \/ Len(errs) >= 5 THEN errs
                    ELSE Append(errs, [l |-> l, op |-> ev.op, why |-> r.why, expected |-> r.exp])
   /\ l' = l + 1
@@ -43,7 +45,7 @@ Finished ==
   /\ l = Len(Events) + 1
   /\ PrintT("RESULT " \o ToJson([tid |-> tid, name |-> Traces[tid].name, n |-> Len(Events), errs |-> errs]))
   /\ l' = l + 1
-  /\ UNCHANGED <<tid, st, errs>>
+  /\ UNCHANGED <<tid, st, tx, errs>>
 
 TraceNext == Consume \/ Finished
 TraceSpec == TraceInit /\ [][TraceNext]_tvars
